@@ -124,4 +124,28 @@ def parenInCombo (s : Stmt) : Bool :=
     | .ann _ _ e => e.hasOp && e.parenText
     | _ => false
 
+mutual
+def Expr.hasMulti : Expr → Bool
+  | .leaf _ => false
+  | .comb _ l r => l.hasMulti || r.hasMulti
+  | .chain _ a b es => a.hasMulti || b.hasMulti || hasMultiList es
+  | .shared _ e _ => e.hasMulti
+  | .multi2 .. => true
+  | .multi3 .. => true
+def hasMultiList : List Expr → Bool
+  | [] => false
+  | e :: es => e.hasMulti || hasMultiList es
+end
+
+/-- several combinations in one component (wAND) written as operand of another combination -/
+def Expr.nestedMulti : Expr → Bool
+  | .multi2 _ a _ b _ => a.hasMulti || b.hasMulti
+  | .multi3 _ a _ b _ c _ => a.hasMulti || b.hasMulti || c.hasMulti
+  | e => e.hasMulti
+
+def hasNestedMulti (s : Stmt) : Bool :=
+  s.parts.any fun p => match p with
+    | .ann _ _ e => e.nestedMulti
+    | _ => false
+
 end IGVerif
